@@ -261,6 +261,13 @@ def check_case(case) -> list[Fail]:
     old, new = parse_sig(case["old"]), parse_sig(case["new"])
     shapes = shapes_for(case)
     om, nm = accept_mask(case["old"], shapes), accept_mask(case["new"], shapes)
+    if case.get("render") in EXTRA_RENDERINGS:
+        r = case["render"]
+        o_mod, n_mod = _extra_pair(r, case["old"], case["new"])
+        br = griffe_breakages(o_mod, n_mod)
+        if r == "api-built":
+            return judge(old, new, om, nm, br, shapes)
+        return judge_weak(old, new, om, nm, br, shapes, r, REEXPORT_PATHS)
     if case.get("render") in CLASS_RENDERINGS:
         r = case["render"]
         br = griffe_breakages(griffe_class_module(case["old"], r), griffe_class_module(case["new"], r))
@@ -525,6 +532,124 @@ def _enumerate_default_texts(ctx) -> None:
                     ctx.fail(f, {"space": "default-text", "render": "default-text", "old": texts[i], "new": texts[j], "old_default": od, "new_default": nd})
 
 
+# ----------------------------------------------------------------------------- other ways a signature pair reaches the differ
+def griffe_api_built_module(old_text: str, new_text: str):
+    """The new signature reached by editing the old function's `parameters` through the public Parameters API
+    (item assignment by index, deletion, `add`), the way an extension rewrites a signature."""
+    import griffe
+
+    def build():
+        mod = griffe.visit("m", filepath=None, code=f"def f({old_text}): ...\n")
+        target = list(griffe.visit("m", filepath=None, code=f"def f({new_text}): ...\n")["f"].parameters)
+        params = mod["f"].parameters
+        for index, param in enumerate(target):
+            if index < len(params):
+                params[index] = param
+            else:
+                params.add(param)
+        while len(params) > len(target):
+            del params[len(params) - 1]
+        return mod
+
+    return call("total", build, what=f"Parameters API: f({old_text}) edited into f({new_text})")
+
+
+REEXPORT_PATHS = ("m.f", "m._impl.f")
+
+
+def griffe_reexport_module(text: str, *, direct: bool):
+    """Package m whose public f is either defined in m itself (direct) or re-exported from the private module m._impl."""
+    import griffe
+
+    def build():
+        mc = griffe.ModulesCollection()
+        if direct:
+            top = griffe.visit("m", filepath=None, code=f"__all__ = ['f']\n\n\ndef f({text}): ...\n", modules_collection=mc)
+            mc["m"] = top
+            return top
+        top = griffe.visit("m", filepath=None, code="from m._impl import f\n\n__all__ = ['f']\n", modules_collection=mc)
+        mc["m"] = top
+        impl = griffe.visit("_impl", filepath=None, code=f"def f({text}): ...\n", parent=top, modules_collection=mc)
+        top.set_member("_impl", impl)
+        return top
+
+    return call("total", build, what=f"package m, f({text}) {'direct' if direct else 're-exported from m._impl'}")
+
+
+def judge_weak(old, new, old_mask: int, new_mask: int, breakages, shapes, rendering: str, paths) -> list[Fail]:
+    """Clauses 1 and 3 only (as for the inherited-method rendering): call-breaking => some breakage on the function,
+    identical => silence."""
+    old_t, new_t = render(old), render(new)
+    if old == new:
+        if breakages:
+            return [Fail("identical-silent", f"reported[{rendering}]", f"[{rendering}] identical signatures ({old_t}) reported {breakages}")]
+        return []
+    broken = old_mask & ~new_mask
+    if broken and not [b for b in breakages if b[1] in paths]:
+        bit = (broken & -broken).bit_length() - 1
+        npos, kws = shapes[bit]
+        shape = f"f({', '.join([str(i) for i in range(npos)] + [k + '=0' for k in kws])})"
+        return [
+            Fail(
+                "call-breaking-reported",
+                f"unreported[{rendering}]",
+                f"[{rendering}] def f({old_t}) -> def f({new_t}): call {shape} binds against old, TypeError against new; no breakage reported on {paths} (reported: {breakages})",
+                {"call": shape},
+            )
+        ]
+    return []
+
+
+EXTRA_RENDERINGS = ("api-built", "reexport>direct", "direct>reexport", "reexport>reexport")
+
+
+def _extra_pair(rendering: str, old_t: str, new_t: str, cache: dict | None = None):
+    if rendering == "api-built":
+        return griffe_module(old_t), griffe_api_built_module(old_t, new_t)
+    o, n = rendering.split(">")
+    cache = {} if cache is None else cache
+
+    def get(text, direct):
+        # old and new side must be distinct objects even for identical texts
+        key = (text, direct)
+        if key not in cache:
+            cache[key] = griffe_reexport_module(text, direct=direct)
+        return cache[key]
+
+    old_mod = get(old_t, o == "direct")
+    new_mod = get(new_t, n == "direct") if (new_t, n == "direct") != (old_t, o == "direct") else griffe_reexport_module(new_t, direct=n == "direct")
+    return old_mod, new_mod
+
+
+def _enumerate_extra_renderings(ctx, sigs, shapes, select) -> None:
+    """Sampled: pairs whose new side was built through the Parameters API (all four clauses), and pairs where the public
+    function is a re-export on one or both sides (clauses 1 and 3)."""
+    texts = [render(s) for s in sigs]
+    masks = [accept_mask(t, shapes) for t in texts]
+    n = len(sigs)
+    cache: dict = {}
+    for rendering in EXTRA_RENDERINGS:
+        for i in range(n):
+            if i % ctx.nshards != ctx.shard:
+                continue
+            if ctx.out_of_budget():
+                break
+            for j in range(n):
+                if not select(i, j, rendering):
+                    continue
+                om, nm = _extra_pair(rendering, texts[i], texts[j], cache)
+                br = griffe_breakages(om, nm)
+                if rendering == "api-built":
+                    fails = [Fail(f.clause, f"{f.kind}[api-built]", "[new side built through the Parameters API] " + f.message, f.detail) for f in judge(sigs[i], sigs[j], masks[i], masks[j], br, shapes)]
+                else:
+                    fails = judge_weak(sigs[i], sigs[j], masks[i], masks[j], br, shapes, rendering, REEXPORT_PATHS)
+                nontrivial = 1 if (i != j and masks[i]) else None
+                cls = "call-breaking" if masks[i] & ~masks[j] else ("identical" if i == j else "compatible")
+                ctx.case(nontrivial, (rendering + ":" + cls,), None, enumerated=True)
+                for f in fails:
+                    ctx.fail(f, {"space": "abc3", "render": rendering, "old": texts[i], "new": texts[j]})
+
+
 def run_shard(ctx) -> None:
     from vp.common.harness import derive_seed
 
@@ -541,6 +666,8 @@ def run_shard(ctx) -> None:
     _enumerate_methods(ctx, sigs, CALL_SHAPES, lambda i, j: (i * 7919 + j * 104729 + salt_m) % mod_m == 0)
     mod_c = 41 if ctx.quick else 11
     _enumerate_class_renderings(ctx, sigs, CALL_SHAPES, lambda i, j, r: (i * 7919 + j * 104729 + salt_m + len(r)) % mod_c == 0)
+    mod_x = 397 if ctx.quick else 47
+    _enumerate_extra_renderings(ctx, sigs, CALL_SHAPES, lambda i, j, r: (i * 7919 + j * 104729 + salt_m + 3 * len(r)) % mod_x == 0)
     _enumerate(ctx, sigs, CALL_SHAPES, "abc3", lambda i, j: True)
     ctx.res.extra["enum_complete"] = not ctx.res.budget_exhausted
     if not ctx.quick:
